@@ -14,6 +14,10 @@
 //            ff<d> strm::fifo(minDepth d, DontCare)   fz<d> strm::fifo(minDepth d, latency 0 = fall-through)
 //            px<r> Packet.h widthExtend(ratio r)      pr<r> Packet.h widthReduce(ratio r)
 //            pm<t> Packet.h matchWidth(to t digits) -- stand-in, see below: the real template does not compile
+//   be=1    : the stream additionally carries scl::ByteEnable (one enable bit per payload byte; w must be 8, so that a digit
+//             is a byte) and scl::Error: RvPacketStream<UInt, TxId, ByteEnable, Error>.  Plan lines then have a 7th field,
+//             the byte enables as one character per digit (digit 0 first), and an 8th, the error bit; the E lines carry the
+//             same two columns on each side (undefined enable bits are printed as X).
 //   eb=1    : the stream additionally carries scl::EmptyBits (RvPacketStream<UInt, TxId, EmptyBits>); the plan lines then
 //             have a 7th field, the emptyBits value of the beat, and the E lines one more column on each side.
 //   hold=1  : the producer keeps valid/payload/eop/meta of a beat that was offered but not accepted
@@ -45,15 +49,15 @@ using gtry::scl::strm::valid; using gtry::scl::strm::ready; using gtry::scl::str
 
 namespace {
 
-using gtry::scl::strm::emptyBits;
+using gtry::scl::strm::emptyBits; using gtry::scl::strm::byteEnable; using gtry::scl::strm::error;
 
-struct PlanLine { bool v; std::vector<uint64_t> d; bool e; uint64_t m; bool r; std::string ctl; uint64_t eb = 0; };
+struct PlanLine { bool v; std::vector<uint64_t> d; bool e; uint64_t m; bool r; std::string ctl; uint64_t eb = 0; std::string be; bool err = false; };
 
 struct Case {
 	std::string header;          // everything after "C "
 	std::string id;
 	size_t w = 4, mw = 3, min = 1, n = 0, eopg = 0;
-	bool hold = true, polite = true, pp = true, eb = false, seq = false;
+	bool hold = true, polite = true, pp = true, eb = false, seq = false, be = false;
 	std::vector<std::string> chain;
 	std::vector<PlanLine> plan;
 };
@@ -75,29 +79,55 @@ std::string digitsStr(const std::vector<uint64_t> &d)
 	return s;
 }
 
-template<class H> std::string payloadStr(const H &h, size_t w, size_t digits)
+// payloads may be wider than 64 bits: go through DefaultBitVectorState
+std::string payloadStr(const sim::DefaultBitVectorState &st, size_t w, size_t digits)
 {
-	uint64_t v = (uint64_t)h.value(), def = (uint64_t)h.defined(), mask = (1ull << w) - 1;
 	std::string s;
 	for (size_t i = 0; i < digits; i++) {
 		if (i) s += ".";
-		if (((def >> (i * w)) & mask) != mask) s += "X";
-		else s += std::to_string((v >> (i * w)) & mask);
+		uint64_t v = 0; bool def = true;
+		for (size_t b = 0; b < w; b++) {
+			size_t pos = i * w + b;
+			if (pos >= st.size() || !st.get(sim::DefaultConfig::DEFINED, pos)) { def = false; break; }
+			if (st.get(sim::DefaultConfig::VALUE, pos)) v |= 1ull << b;
+		}
+		s += def ? std::to_string(v) : std::string("X");
 	}
 	return s;
 }
 
-uint64_t packDigits(const std::vector<uint64_t> &d, size_t w)
+sim::DefaultBitVectorState packDigits(const std::vector<uint64_t> &d, size_t w, size_t digits)
 {
-	uint64_t v = 0;
-	for (size_t i = 0; i < d.size(); i++) v |= (d[i] & ((1ull << w) - 1)) << (i * w);
-	return v;
+	sim::DefaultBitVectorState st; st.resize(w * digits);
+	for (size_t i = 0; i < digits; i++)
+		for (size_t b = 0; b < w; b++) {
+			st.set(sim::DefaultConfig::DEFINED, i * w + b, true);
+			st.set(sim::DefaultConfig::VALUE, i * w + b, i < d.size() && ((d[i] >> b) & 1));
+		}
+	return st;
 }
 
-template<bool EB>
+// byte enables: one character per digit, digit 0 first
+sim::DefaultBitVectorState packBits(const std::string &bits, size_t n)
+{
+	sim::DefaultBitVectorState st; st.resize(n);
+	for (size_t i = 0; i < n; i++) { st.set(sim::DefaultConfig::DEFINED, i, true); st.set(sim::DefaultConfig::VALUE, i, i < bits.size() && bits[i] == '1'); }
+	return st;
+}
+std::string bitsStr(const sim::DefaultBitVectorState &st)
+{
+	std::string s;
+	for (size_t i = 0; i < st.size(); i++) s += !st.get(sim::DefaultConfig::DEFINED, i) ? 'X' : st.get(sim::DefaultConfig::VALUE, i) ? '1' : '0';
+	return s;
+}
+
+template<int MODE>
 void runCaseT(const Case &c, std::ostream &out)
 {
-	using S = std::conditional_t<EB, scl::RvPacketStream<UInt, scl::TxId, scl::EmptyBits>, scl::RvPacketStream<UInt, scl::TxId>>;
+	constexpr bool EB = MODE == 1, BE = MODE == 2;
+	using S = std::conditional_t<EB, scl::RvPacketStream<UInt, scl::TxId, scl::EmptyBits>,
+	          std::conditional_t<BE, scl::RvPacketStream<UInt, scl::TxId, scl::ByteEnable, scl::Error>, scl::RvPacketStream<UInt, scl::TxId>>>;
+	if (BE && c.w != 8) throw std::runtime_error("harness: be=1 needs w=8 (one enable bit per byte)");
 	DesignScope design;
 	Clock clk({ .absoluteFrequency = 100'000'000 });
 	ClockScope cs(clk);
@@ -105,6 +135,7 @@ void runCaseT(const Case &c, std::ostream &out)
 	S in{ UInt(BitWidth(c.w * c.min)) };
 	txid(in) = BitWidth(c.mw);
 	if constexpr (EB) emptyBits(in) = BitWidth::count(c.w * c.min);
+	if constexpr (BE) byteEnable(in) = BitWidth(c.min);
 	pinIn(in, "in");
 
 	// neutral first hop so that the pinned stream object is never moved from
@@ -190,10 +221,11 @@ void runCaseT(const Case &c, std::ostream &out)
 		std::vector<bool> stallNow(nStall, false);
 		auto apply = [&](const PlanLine &beat, const PlanLine &ctl, const std::vector<bool> &st) {
 			simu(valid(in)) = beat.v ? '1' : '0';
-			simu(*in) = packDigits(beat.d, c.w);
+			simu(*in) = packDigits(beat.d, c.w, c.min);
 			simu(eop(in)) = beat.e ? '1' : '0';
 			simu(txid(in)) = beat.m;
 			if constexpr (EB) simu(emptyBits(in)) = beat.eb;
+			if constexpr (BE) { simu(byteEnable(in)) = packBits(beat.be, c.min); simu(error(in)) = beat.err ? '1' : '0'; }
 			simu(ready(o)) = ctl.r ? '1' : '0';
 			for (size_t k = 0; k < nStall; k++) simu(stallPins[k]) = st[k] ? '1' : '0';
 		};
@@ -211,13 +243,15 @@ void runCaseT(const Case &c, std::ostream &out)
 			out << "E " << (curBeat.v ? 1 : 0) << " " << digitsStr(curBeat.d) << " " << (curBeat.e ? 1 : 0) << " " << curBeat.m << " "
 				<< (p.r ? 1 : 0) << " " << ctlStr;
 			if constexpr (EB) out << " " << curBeat.eb;
+			if constexpr (BE) { std::string b = curBeat.be; b.resize(c.min, '0'); out << " " << b << " " << (curBeat.err ? 1 : 0); }
 			out << " | " << rin << " " << vo << " ";
-			if (vo == "0") out << (EB ? "- - - -\n" : "- - -\n");
+			if (vo == "0") out << (BE ? "- - - - -\n" : EB ? "- - - -\n" : "- - -\n");
 			else {
 				auto m = simu(txid(o));
-				out << payloadStr(simu(*o), c.w, digits) << " " << bitStr(simu(eop(o))) << " "
+				out << payloadStr(simu(*o).eval(), c.w, digits) << " " << bitStr(simu(eop(o))) << " "
 					<< (m.allDefined() ? std::to_string((uint64_t)m.value()) : std::string("X"));
 				if constexpr (EB) { auto e = simu(emptyBits(o)); out << " " << (e.allDefined() ? std::to_string((uint64_t)e.value()) : std::string("X")); }
+				if constexpr (BE) out << " " << bitsStr(simu(byteEnable(o)).eval()) << " " << bitStr(simu(error(o)));
 				out << "\n";
 			}
 			if (i + 1 >= c.plan.size()) break;
@@ -251,7 +285,7 @@ void runCaseT(const Case &c, std::ostream &out)
 
 void runCase(const Case &c, std::ostream &out)
 {
-	if (c.eb) runCaseT<true>(c, out); else runCaseT<false>(c, out);
+	if (c.be) runCaseT<2>(c, out); else if (c.eb) runCaseT<1>(c, out); else runCaseT<0>(c, out);
 }
 
 bool parseHeader(const std::string &line, Case &c)
@@ -273,6 +307,7 @@ bool parseHeader(const std::string &line, Case &c)
 		else if (k == "polite") c.polite = v == "1";
 		else if (k == "pp") c.pp = v == "1";
 		else if (k == "eb") c.eb = v == "1";
+		else if (k == "be") c.be = v == "1";
 		else if (k == "prod") c.seq = v == "seq";
 		else if (k == "eopg") c.eopg = strtoull(v.c_str(), nullptr, 10);
 		else if (k == "chain") { c.chain.clear(); if (v != "-") c.chain = split(v, ','); }
@@ -295,13 +330,14 @@ int main(int argc, char **argv)
 		if (line[0] == 'C') { cases.emplace_back(); parseHeader(line, cases.back()); }
 		else if (line[0] == 'P' && !cases.empty()) {
 			std::stringstream ss(line.substr(2));
-			std::string v, d, e, m, r, ctl, ebs;
-			ss >> v >> d >> e >> m >> r >> ctl >> ebs;
+			std::string v, d, e, m, r, ctl, ebs, errs;
+			ss >> v >> d >> e >> m >> r >> ctl >> ebs >> errs;
 			PlanLine p;
 			p.v = v == "1"; p.e = e == "1"; p.r = r == "1"; p.m = strtoull(m.c_str(), nullptr, 10);
 			for (auto &x : split(d, '.')) p.d.push_back(strtoull(x.c_str(), nullptr, 10));
 			p.ctl = ctl == "-" ? "" : ctl;
-			p.eb = ebs.empty() ? 0 : strtoull(ebs.c_str(), nullptr, 10);
+			if (cases.back().be) { p.be = ebs; p.err = errs == "1"; }
+			else p.eb = ebs.empty() ? 0 : strtoull(ebs.c_str(), nullptr, 10);
 			cases.back().plan.push_back(p);
 		}
 	}
